@@ -104,7 +104,7 @@ var supports = map[string][]support{
 			Why: "the rules of this check read the code generated for one-file requests; a file's output must not depend on the other files of the request for them to hold for the code every request produces"},
 	},
 	"C12": {
-		{From: "C11", Rules: []string{"D1", "D2", "D4", "D4b", "D10"},
+		{From: "C11", Rules: []string{"D1", "D2", "D4", "D4b", "D10", "D12"},
 			Why: "every extension accessor selects the runtime by MsgType: a message classified as the wrong runtime is paired with the wrong extension API"},
 		{From: "C05", Rules: []string{"V-presence-encoding", "V-ext-open"}, Under: []string{"extension", "extendable"},
 			Why: "after ClearExtension the extension must not appear in the marshaled bytes, and a set one must: the generated code decides that with HasExtension"},
@@ -136,7 +136,7 @@ var supports = map[string][]support{
 			Why: "a required bytes field that is present and empty must count as present"},
 	},
 	"C18": {
-		{From: "C11", Rules: []string{"D1", "D2", "D4", "D4b", "D10"},
+		{From: "C11", Rules: []string{"D1", "D2", "D4", "D4b", "D10", "D12"},
 			Why: "the JSON adapters tell golang/protobuf v1 messages from Gogo messages by MsgType"},
 	},
 }
